@@ -29,14 +29,21 @@ CLAIMS["C02"] = (
     "TLA+ denotation with predicates (XSem.tla) explored by TLC over documents x predicate pools (XPools.tla: host axis x "
     "predicate axis x atom form, nesting depth 2, and/or/not, two predicates, parenthesised paths with one or several "
     "predicates, and/or over merge-rewritten operands); replay on the engine; seeded deeper cases recorded from the "
-    "engine and validated by TLC (XBatch.tla, with taint analysis for values outside the exact number model)",
+    "engine and validated by TLC (XBatch.tla, with taint analysis for values outside the exact number model); "
+    "implementation-shaped model of the predicate pipeline (XQueryVM2.tla: builder flags and rewrites, Evaluate reset protocol, "
+    "filter/merge/group/not/and/or/comparison/function-call queries) model-checked against the denotation (VM2Refines), its "
+    "named deviations refuted by TLC, the engine's delivery sequences and cursor movements compared with the model's "
+    "(Flow A) and recorded engine traces validated against the model by TLC (XVMBatch.tla, Flow B)",
     "Bounded-exhaustive model checking of predicate semantics: every candidate sequence arising in all small documents and "
     "the catalogue (several candidates sharing ancestors, siblings, followers) is replayed and compared with the denotation, "
     "which exposes state leaking from one candidate to the next.",
     CLAIMS["C01"][2], "DESIGN.md 4/C02")
 CLAIMS["C03"] = (
     "TLA+ proximity-position semantics (XSem.tla KeepFrom/PredTrue) explored by TLC over all element documents up to 5-6 "
-    "nodes x positional predicate pools (XPools.tla PoolC03*); replay on the engine",
+    "nodes x positional predicate pools (XPools.tla PoolC03*: 8 host positions, continued by steps on every axis, nested "
+    "inside predicates); replay on the engine; position counters, position()/last() sibling scans and the merge rewrite in "
+    "the implementation-shaped model XQueryVM2.tla (VM2Refines by TLC, deviations refuted, engine movements compared, "
+    "recorded traces validated by TLC with XVMBatch.tla)",
     "Bounded-exhaustive model checking of positional predicates on child steps in 8 host positions, followed by boolean "
     "predicates, and of (path)[n]; parents with different fan-out are enumerated exhaustively.",
     CLAIMS["C01"][2], "DESIGN.md 4/C03")
@@ -75,7 +82,9 @@ CLAIMS["C04"] = (
 CLAIMS["C12"] = (
     "TLA+ API session machine (XApi.tla) with mode seq: flat paths must deliver exactly the denotation in document "
     "order; TLC-enumerated histories with extra MoveNext calls, Current, Evaluate-vs-Select, count(e), reverse(e) are "
-    "executed and the recorded sessions validated by TLC",
+    "executed and the recorded sessions validated by TLC; the abstract API machine explored by TLC (MC_Api.tla); in the "
+    "implementation-shaped model XQueryVM.tla TLC proves flat paths are delivered in strictly increasing document order "
+    "(VMOrdered) and the engine must deliver exactly the model's sequence",
     "Exhaustive over all flat paths of 1-2 (thorough 3) child/attribute/self steps, //name, descendant::name, with the "
     "C02/C03 predicates, on the catalogue and value documents from seeded contexts; protocol relations for every "
     "node-set expression of the C04 pool.",
